@@ -440,6 +440,25 @@ func c11Unit(j *Job, u *JobUnit) error {
 					}
 				}
 			}
+			// (d) size family: a valid body padded with insignificant whitespace beyond each size, and the same prefix cut at the
+			// size and followed by garbage - a server that buffers only part of a body must not take the part for the whole
+			if len(docs) > 0 && j.Params["maxL"] == "" {
+				doc := docs[0]
+				if len(doc) > 1 && doc[len(doc)-1] == '}' {
+					for _, size := range []int{1 << 20, 1 << 22, 1 << 23} {
+						pad := make([]byte, 0, size+64)
+						pad = append(pad, doc[:len(doc)-1]...)
+						for len(pad) < size {
+							pad = append(pad, ' ')
+						}
+						valid := append(append([]byte{}, pad...), []byte("          }")...)
+						judgeF("application/json", fmt.Sprintf("size_padded_valid_%dMiB", size>>20), valid, false)
+						garbage := append(append([]byte{}, doc...), pad[len(doc)-1:]...) // the whole valid document, then padding up to the size
+						garbage = append(garbage[:size], []byte("}]garbage")...)
+						judgeF("application/json", fmt.Sprintf("size_garbage_after_%dMiB", size>>20), garbage, false)
+					}
+				}
+			}
 			for _, doc := range docs {
 				for _, mu := range jsonMutations(doc) {
 					judge("application/json", "mut_"+mu[0], []byte(mu[1]))
